@@ -184,8 +184,8 @@ class Env(object):
                 return k
         return W["rev"].get(cls, "%s.%s" % (cls.__module__, cls.__name__))
 
-    def rec(self, rid):
-        if rid in self._recs:
+    def rec(self, rid, fresh=False):
+        if rid in self._recs and not fresh:
             return self._recs[rid]
         from moclo.record import CircularRecord
         from Bio.Seq import Seq
@@ -202,9 +202,13 @@ class Env(object):
             base, k = rid.rsplit("@", 1)
             src = W["records"][base]
             r = CircularRecord(Seq(dna.rotate_right(str(src.seq), int(k))), id=src.id, name=src.name, annotations={"topology": "circular", "molecule_type": "DNA"})
+        elif fresh:
+            src = W["records"][rid]
+            r = CircularRecord(Seq(str(src.seq)), id=src.id, name=src.name, annotations={"topology": "circular", "molecule_type": "DNA"})
         else:
             r = W["records"][rid]
-        self._recs[rid] = r
+        if not fresh:
+            self._recs[rid] = r
         return r
 
     def define(self, spec):
@@ -261,9 +265,9 @@ def do_structure(env, cid):
         return _canon_exc(exc)
 
 
-def do_new(env, cid, rid):
+def do_new(env, cid, rid, fresh=False):
     try:
-        return env.cls(cid)(env.rec(rid)), "ok"
+        return env.cls(cid)(env.rec(rid, fresh)), "ok"
     except Exception as exc:
         return None, _canon_exc(exc)
 
@@ -322,8 +326,11 @@ def _run_child(case):
             except Exception as exc:
                 res = _canon_exc(exc)
         elif k == "new":
-            inst, res = do_new(env, op["cls"], op["rec"])
+            inst, res = do_new(env, op["cls"], op["rec"], bool(op.get("fresh")))
             env.handles[op["h"]] = inst
+        elif k == "drop":
+            env.handles.pop(op["h"], None)
+            res = "ok"
         elif k == "call":
             inst = env.handles.get(op["h"])
             res = {"skip": "no-handle"} if inst is None else call_method(env, inst, op["method"])
@@ -382,10 +389,15 @@ def execute(case):
         elif k == "new":
             if _known_class(defined_ids, op["cls"]):
                 handle_of[op["h"]] = (op["cls"], op["rec"])
+                if op.get("fresh"):
+                    probes["fresh-record-object"] += 1
                 exp, forked = oracle(case, defines, ["new", op["cls"], op["rec"]])
                 stats["oracle_forks"] += forked
             else:
                 handle_of.pop(op["h"], None)
+        elif k == "drop":
+            handle_of.pop(op["h"], None)
+            probes["drop-handle"] += 1
         elif k == "call":
             if op["h"] in handle_of:
                 cid, rid = handle_of[op["h"]]
@@ -456,6 +468,8 @@ def handle_of_at(ops, upto):
     for op in ops[: upto + 1]:
         if op["op"] == "new":
             m[op["h"]] = (op["cls"], op["rec"])
+        elif op["op"] == "drop":
+            m.pop(op["h"], None)
     return m
 
 
@@ -620,9 +634,13 @@ def gen_case(spec):
                 seq, _ = dna.make_vector(g, geom, ovs[0], ovs[1], g.randint(4, 20), g.randint(10, 40))
             else:
                 seq, _ = dna.make_module(g, geom, ovs[0], ovs[1], g.randint(2, 20), g.randint(6, 40))
-            if g.random() < 0.3:  # near miss: corrupt one site letter
+            c_ = g.random()
+            if c_ < 0.25:  # near miss: corrupt one site letter
                 i = seq.find(geom["site"])
                 seq = seq[:i] + ("A" if seq[i] != "A" else "C") + seq[i + 1:]
+            elif c_ < 0.5:  # right structure plus an extra (illegal) site inside the matched region
+                i = seq.find(geom["site"]) + len(geom["site"]) + geom["gap"] + geom["ov"] + 1
+                seq = seq[:i] + g.choice([geom["site"], dna.rc(geom["site"])]) + dna.rand_dna(g, geom["gap"] + geom["ov"] + 2) + seq[i:]
             seq = dna.rotate_right(seq, g.randrange(len(seq)))
             synthetic.append({"id": sid, "seq": seq, "topology": "circular" if g.random() < 0.9 else "linear"})
             recs.append(sid)
@@ -632,6 +650,8 @@ def gen_case(spec):
     ops = []
     handles = {c: [] for c in range(n_clients)}  # client -> [(h, cls, rec)]
     defined = []
+    nh = {c: 10 for c in range(n_clients)}
+    last_drop = {}
     hints = {}
     name_pool = ["UserPartA", "UserPartB", "UserPartA"]  # repeated name on purpose
 
@@ -671,6 +691,16 @@ def gen_case(spec):
             rid = g.choice(recs)
             if hints.get(cid) and g.random() < 0.7:
                 rid = g.choice(hints[cid])
+            reuse = None
+            if last_drop.get(client) and g.random() < 0.6:
+                # a new record object of the same length right after one was released
+                dc, dr = last_drop.pop(client)
+                base_r = dr.split("@")[0]
+                if base_r in W["rmeta"]:
+                    n_ = W["rmeta"][base_r]["len"]
+                    reuse = "%s@%d" % (base_r, g.randrange(1, n_))
+                    if g.random() < 0.7:
+                        cid = dc
             if hs and g.random() < 0.5 and cid in W["classes"]:
                 prev = g.choice(hs)[1]
                 if prev in W["classes"]:
@@ -679,9 +709,19 @@ def gen_case(spec):
                         rid = s
                         if s not in recs:
                             recs.append(s)
-            h = "c%dh%d" % (client, len(hs))
-            add(client, {"op": "new", "h": h, "cls": cid, "rec": rid})
+            nh[client] += 1
+            h = "c%dh%d" % (client, nh[client])
+            if reuse:
+                rid = reuse
+            op_new = {"op": "new", "h": h, "cls": cid, "rec": rid}
+            if reuse or g.random() < 0.3:
+                op_new["fresh"] = True
+            add(client, op_new)
             hs.append((h, cid, rid))
+        elif x < 0.33 and len(hs) > 1:
+            victim = hs.pop(g.randrange(len(hs)))
+            add(client, {"op": "drop", "h": victim[0]})
+            last_drop[client] = (victim[1], victim[2])
         elif x < 0.78:
             h = g.choice(hs)[0] if g.random() < 0.5 else hs[-1][0]
             add(client, {"op": "call", "h": h, "method": g.choice(["is_valid", "is_valid", "overhang_start", "overhang_end", "target", "placeholder"])})
@@ -729,7 +769,7 @@ def _gen_define(g, pool, defined, name_pool):
     class distinguishable from its relatives and namesakes."""
     cmeta = W["cmeta"]
     acc = W["accepts"] or {}
-    kind = g.choice(["sig-under-kit-base", "subclass-of-concrete", "override-structure", "same-name", "same-name"])
+    kind = g.choice(["sig-under-kit-base", "subclass-of-concrete", "override-structure", "same-name", "same-name", "cross-role"])
     parts = [c for c in pool if c in cmeta and cmeta[c]["kind"] == "kit" and W["ancestors"][c] and any(a in W["abstract_bases"] for a in W["ancestors"][c])]
     if not parts:
         return None
@@ -764,6 +804,18 @@ def _gen_define(g, pool, defined, name_pool):
 
     did = "def:%d" % len(defined)
     bases = [W["rev"][b] for b in mcls.__bases__ if b in W["rev"]]
+    if kind == "cross-role":
+        # a vector flavour of a module part's signature (or the reverse), same cutter
+        if len(bases) != len(mcls.__bases__):
+            return None
+        role = _is_vectorish(model, [])
+        others = [c for c in W["corder"] if cmeta[c]["kind"] == "kit" and isinstance(W["classes"][c].__dict__.get("signature"), tuple)
+                  and getattr(W["classes"][c], "cutter", None) is cutter and _is_vectorish(c, []) != role]
+        if not others:
+            return None
+        other = g.choice(others)
+        hint.extend(sorted(acc.get(other, ()))[:40])
+        return done({"id": did, "name": "UserCross%d" % len(defined), "bases": bases, "attrs": {"signature": list(W["classes"][other].signature)}})
     if kind == "sig-under-kit-base":
         # same bases as the model part: (kit part base, kit module/vector class)
         if len(bases) != len(mcls.__bases__):
@@ -864,4 +916,4 @@ def catalogue_summary(case):
     return {"classes": [x["id"] for x in c["classes"]][:12], "records": c["records"][:8], "synthetic": len(c["synthetic"])}
 
 
-EXPECTED_PROBES = {"C06": ["ancestor-before-descendant+separating", "descendant-before-ancestor+separating", "sibling-before-sibling+separating", "characterize-after-define", "query-defined-class", "rotated-record", "synthetic-record"]}
+EXPECTED_PROBES = {"C06": ["drop-handle", "fresh-record-object", "ancestor-before-descendant+separating", "descendant-before-ancestor+separating", "sibling-before-sibling+separating", "characterize-after-define", "query-defined-class", "rotated-record", "synthetic-record"]}
